@@ -256,6 +256,10 @@ def process_level(ctx):
                     # the capacity-1 boundary of the count normalisation (Count = n-1) is always exercised
                     jobs.append((prim, "quick-n1", driver_cmd(prim, seed + 50 + i, 8, 2, 1, 3, os.path.join(root, f"q1-{prim}"), addr, timeout_s=8,
                                                               extra=["-keysalt", "7"]), os.path.join(root, f"q1-{prim}")))
+            # try-lock runs (wait timeout 0, expiry 120 s) of the lock-shaped primitives: timeout and expiry are as different as they can be
+            for i, prim in enumerate(("rlock", "lock", "rwlock")):
+                jobs.append((prim, "quick-try", driver_cmd(prim, seed + 70 + i, 8, 2, 2, 3, os.path.join(root, f"qt-{prim}"), addr, timeout_s=8,
+                                                           extra=["-trylock", "-keysalt", str(11 + i)]), os.path.join(root, f"qt-{prim}")))
             run_batch(ctx, jobs, wall_limit=45)
         else:
             sv.start_follower()
